@@ -122,6 +122,12 @@ def main():
         wt = f"/tmp/mutfuzz_wt{w}"
         if not os.path.isdir(wt):
             sh(["git", "-C", "/repo", "worktree", "add", "--detach", wt, "HEAD"])
+        # the scratch worktree must be the current /repo HEAD (fix commits made since it was created included)
+        head = sh(["git", "-C", "/repo", "rev-parse", "HEAD"]).stdout.strip()
+        sh(["git", "-C", wt, "checkout", "-q", "--", "."])
+        r = sh(["git", "-C", wt, "checkout", "-q", "--detach", head])
+        if r.returncode != 0:
+            sys.exit(f"mutfuzz: cannot bring {wt} to {head}: {r.stderr}")
     jobs = []
     tmp = os.path.join(OUTROOT, "tmp")
     os.makedirs(tmp, exist_ok=True)
